@@ -38,6 +38,50 @@ ASSUMPTIONS = [
 BASES = [(5,), (2, 3), (3, 2), (3, 4), (2, 2, 2)]
 
 
+class ArrayLike:
+    """minimal non-ndarray array-like (as h5py / zarr / netCDF variables are): from_array wraps it block by block with
+    getter(arr, slices) tasks, which the array optimizer fuses with the slicing tasks built on top"""
+
+    def __init__(self, a):
+        self._a = a
+        self.shape, self.dtype, self.ndim = a.shape, a.dtype, a.ndim
+
+    def __getitem__(self, key):
+        return self._a[key]
+
+
+# ---------------------------------------------------------------------------------------------- index-tuple families
+# real (non-None) index entries per axis: an int, ':', a slice starting inside the first block, a slice stopping inside the last
+REAL4 = (0, ("s", None, None, None), ("s", 1, None, None), ("s", None, -1, None))
+REAL3 = REAL4[:3]
+AL_BASES = [(5,), (2, 3), (3, 2)]  # depth-1 programs on from_array(<non-ndarray array-like>)
+IX_SPECS = [((2, 3), REAL4, 3), ((2, 2, 2), REAL3, 2)]  # (shape, real alphabet, max number of None entries)
+IX2_BASES = [(2, 3), (3, 2)]
+
+
+def index_tuples(ndim, reals, max_none):
+    """EVERY index tuple with r <= ndim real entries (missing trailing axes are implicit ':') and k <= max_none np.newaxis
+    entries, in every interleaving"""
+    for r in range(ndim + 1):
+        for k in range(max_none + 1):
+            if r + k == 0:
+                continue
+            for where_none in itertools.combinations(range(r + k), k):
+                for real in itertools.product(reals, repeat=r):
+                    it = iter(real)
+                    yield tuple("None" if i in where_none else next(it) for i in range(r + k))
+
+
+def basic_tuples(ndim, reals):
+    for r in range(1, ndim + 1):
+        yield from itertools.product(reals, repeat=r)
+
+
+def _getitem_op(ix):
+    idx = tuple(arr.sl(t) for t in ix)
+    return (lambda x: x[idx]), (lambda x: x[idx])
+
+
 # ---------------------------------------------------------------------------------------------- step alphabet
 def _need(x, ndim):
     if x.ndim < ndim:
@@ -112,6 +156,7 @@ def _steps():
     S["bcast"] = both(lambda xp, x: x + x[..., :1])
     # ---- C20 indexing
     S["tail"] = both(lambda xp, x: x[1:])
+    S["head"] = both(lambda xp, x: x[:-1])
     S["rev"] = both(lambda xp, x: x[::-1])
     S["step_last"] = both(lambda xp, x: x[..., ::2])
     S["int_last"] = both(lambda xp, x: x[..., 0])
@@ -201,7 +246,7 @@ def steps():
 
 ALL = [
     "add1", "gt", "truediv", "astype_f4", "where", "bcast",
-    "tail", "rev", "step_last", "int_last", "list0", "boolmask", "newaxis",
+    "tail", "head", "rev", "step_last", "int_last", "list0", "boolmask", "newaxis",
     "setitem",
     "sum0", "sum_all", "mean_keep", "cumsum0", "argmax_last", "topk", "var0",
     "rechunk2", "rechunk_ax0",
@@ -217,7 +262,7 @@ CORE = [
     "setitem",
     "sum0", "mean_keep", "cumsum0", "topk",
     "rechunk2",
-    "ravel", "reshape2", "T", "concat", "pad", "repeat", "take",
+    "reshape2", "T", "concat", "pad", "repeat",
     "map_overlap", "sliding",
     "coarsen",
 ]  # fmt: skip
@@ -249,7 +294,10 @@ def RULE(tier):
         f"{BASES} under EVERY chunking (16+8+8+32+8 = 72). Checked on the final node of every pipeline: computed shape/dtype == lazy shape/dtype; chunks sum "
         "to shape; every block computed alone (each to_delayed object; corner blocks also via .blocks[idx]"
         + ("; all blocks via .blocks" if tier == "thorough" else "")
-        + ") has the declared chunk shape; blocks placed by index reassemble compute(). non-trivial = checked node has >= 2 blocks."
+        + ") has the declared chunk shape; blocks placed by index reassemble compute(). non-trivial = checked node has >= 2 blocks. "
+        f"Plus (both tiers): the depth-1 programs on from_array(<non-ndarray array-like>) of {AL_BASES}; EVERY index tuple with <= ndim real entries "
+        "from {int, ':', '1:', ':-1'} and up to 3 (2-d) / 2 (3-d, without ':-1') np.newaxis entries in every interleaving on (2,3) and (2,2,2); EVERY pair "
+        f"of consecutive basic index tuples x[i1][i2] over the same entries on {IX2_BASES}; all under every chunking."
     )
 
 
@@ -271,6 +319,23 @@ def shards(tier):
     return [("prog", i, NSHARD[tier]) for i in range(NSHARD[tier])]
 
 
+def extra_cases():
+    """the families that are the same in both tiers (cheap single/double getitem programs and the array-like base)"""
+    for s in ALL:
+        for shp in AL_BASES:
+            for ch in enums.chunkings(shp):
+                yield ("pa", shp, ch, (s,))
+    for shp, reals, max_none in IX_SPECS:
+        for ix in index_tuples(len(shp), reals, max_none):
+            for ch in enums.chunkings(shp):
+                yield ("ix", shp, ch, ix)
+    for shp in IX2_BASES:
+        for i1 in basic_tuples(len(shp), REAL4):
+            for i2 in basic_tuples(len(shp), REAL4):
+                for ch in enums.chunkings(shp):
+                    yield ("ix2", shp, ch, i1, i2)
+
+
 def cases_of(shard, tier):
     _, part, nparts = shard
     for pi, (prog, bases) in enumerate(programs(tier)):
@@ -279,6 +344,9 @@ def cases_of(shard, tier):
         for shp in bases:
             for ch in enums.chunkings(shp):
                 yield ("p", shp, ch, prog)
+    for ci, case in enumerate(extra_cases()):
+        if ci % nparts == part:
+            yield case
 
 
 # ---------------------------------------------------------------------------------------------- the invariant
@@ -435,18 +503,31 @@ def _healthy(node):
         return False
 
 
+def ops_of(case):
+    """-> (shape, chunks, array-like base?, [(step name, dask fn, numpy fn)...])"""
+    kind, shp, ch = case[0], case[1], case[2]
+    if kind in ("p", "pa"):
+        S = steps()
+        return shp, ch, kind == "pa", [(s,) + tuple(S[s]) for s in case[3]]
+    if kind == "ix":
+        return shp, ch, False, [("getitem",) + _getitem_op(case[3])]
+    if kind == "ix2":
+        return shp, ch, False, [("getitem",) + _getitem_op(case[3]), ("getitem",) + _getitem_op(case[4])]
+    raise ValueError(kind)
+
+
 def run_case(case, ctx):
     da = _da()
-    _, shp, ch, prog = case
-    S = steps()
+    shp, ch, arraylike, ops = ops_of(case)
+    prog = [o[0] for o in ops]
     x = arr.data(shp, ctx.seed)
     with warnings.catch_warnings():
         warnings.simplefilter("ignore")
         # NumPy shadow: applicability only
         try:
             ys = [x]
-            for s in prog:
-                y = S[s][1](ys[-1])
+            for _, _, nfn in ops:
+                y = nfn(ys[-1])
                 if not _is_array(y):
                     raise TypeError("not an array")
                 ys.append(y)
@@ -455,7 +536,7 @@ def run_case(case, ctx):
         except Exception:  # noqa: BLE001
             ctx.count("inapplicable")
             return
-        d = prev = da.from_array(x, chunks=ch)
+        d = prev = da.from_array(ArrayLike(x) if arraylike else x, chunks=ch)
         last = prog[-1] if prog else "base"
 
         def inherited(node, depth):
@@ -464,9 +545,9 @@ def run_case(case, ctx):
                 return True
             return False
 
-        for i, s in enumerate(prog):
+        for i, (s, dfn, _) in enumerate(ops):
             try:
-                prev, d = d, S[s][0](d)
+                prev, d = d, dfn(d)
             except Hang:
                 raise
             except Exception as e:  # noqa: BLE001
